@@ -10,6 +10,7 @@ import (
 	"go/token"
 	"go/types"
 	"sort"
+	"strconv"
 	"strings"
 
 	"golang.org/x/tools/go/packages"
@@ -127,6 +128,30 @@ func (ev *tplEval) sprintf(fc *fctx, call *ast.CallExpr) Sketch {
 	if tv.Value != nil && tv.Value.Kind() == constant.String {
 		format = constant.StringVal(tv.Value)
 	} else {
+		// the format is a parameter of a helper that only ever receives constants: one alternative per constant
+		if id := identOf(call.Args[0]); id != nil && fc.fn != nil {
+			if host := funcContaining(call.Args[0]); host != nil && !host.Obj.Exported() && paramIndex(host, objOf(info, id)) >= 0 {
+				ds, wh := defsThroughAny(ev.w, host, objOf(info, id))
+				var opts []Sketch
+				for i, d := range ds {
+					dtv := wh[i].Pkg.TypesInfo.Types[d]
+					if dtv.Value == nil || dtv.Value.Kind() != constant.String {
+						opts = nil
+						break
+					}
+					lit := &ast.BasicLit{ValuePos: call.Args[0].Pos(), Kind: token.STRING, Value: strconv.Quote(constant.StringVal(dtv.Value))}
+					info.Types[lit] = types.TypeAndValue{Type: types.Typ[types.String], Value: dtv.Value}
+					opts = append(opts, ev.sprintf(fc, &ast.CallExpr{Fun: call.Fun, Lparen: call.Lparen, Args: append([]ast.Expr{lit}, call.Args[1:]...), Rparen: call.Rparen}))
+				}
+				switch len(opts) {
+				case 0:
+				case 1:
+					return opts[0]
+				default:
+					return Sketch{Alt{opts}}
+				}
+			}
+		}
 		return ev.unk(call, "dynamic format")
 	}
 	args := call.Args[1:]
@@ -438,7 +463,7 @@ func (ev *tplEval) evalList(fc *fctx, e ast.Expr) (Sketch, bool) {
 			}
 			// library functions returning (a selection or rearrangement of) the elements of their first argument
 			switch fn.FullName() {
-			case "slices.Compact", "slices.Clone", "slices.Sorted", "slices.Clip", "slices.CompactFunc":
+			case "slices.Compact", "slices.Clone", "slices.Sorted", "slices.Clip", "slices.CompactFunc", "slices.Repeat":
 				if len(call.Args) >= 1 {
 					return ev.evalList(fc, call.Args[0])
 				}
